@@ -341,3 +341,78 @@ func (g *Gen) genContext(p *Prog, steps int) {
 	p.Exec("cerr")
 	p.Exec("cerr")
 }
+
+// genGob: GobEncode/GobDecode round trips and hostile payloads (C17).
+func (g *Gen) genGob(p *Prog) {
+	x := g.any()
+	xi := p.Load(x)
+	// give x a non-Exact accuracy sometimes, by rounding it
+	if x.Form == 1 && len(x.Digits) > 1 && g.chance(0.4) {
+		p.Exec(fmt.Sprintf("setprec %d %d", xi, 1+g.intn(len(x.Digits))))
+	}
+	switch g.intn(4) {
+	case 0:
+		p.Exec(fmt.Sprintf("gobenc %d", xi))
+		z := p.Load(Val{Form: 0, Prec: 0})
+		p.Exec(fmt.Sprintf("gobrt %d %d", z, xi))
+	case 1:
+		z := p.Load(g.receiver(g.prec(true), g.mode()))
+		if g.chance(0.1) {
+			z = xi
+		}
+		p.Exec(fmt.Sprintf("gobrt %d %d", z, xi))
+	default:
+		enc, err := p.vars[xi].GobEncode()
+		if err != nil {
+			return
+		}
+		b := append([]byte(nil), enc...)
+		switch g.intn(9) {
+		case 0: // truncate
+			b = b[:g.intn(len(b)+1)]
+		case 1: // flip a byte
+			if len(b) > 0 {
+				b[g.intn(len(b))] ^= byte(1 << uint(g.intn(8)))
+			}
+		case 2: // random byte
+			if len(b) > 0 {
+				b[g.intn(len(b))] = byte(g.intn(256))
+			}
+		case 3: // extend
+			for k := g.intn(20); k >= 0; k-- {
+				b = append(b, byte(g.intn(256)))
+			}
+		case 4: // attribute byte
+			if len(b) > 1 {
+				b[1] = byte(g.intn(256))
+			}
+		case 5: // a word >= 10^19
+			if len(b) >= 18 {
+				k := 10 + 8*g.intn((len(b)-10)/8)
+				for j := 0; j < 8; j++ {
+					b[k+j] = 0xff
+				}
+			}
+		case 6: // zero the top word (unnormalised)
+			if len(b) >= 18 {
+				for j := 10; j < 18; j++ {
+					b[j] = 0
+				}
+			}
+		case 7: // precision smaller than the digits sent
+			if len(b) >= 6 {
+				b[2], b[3], b[4], b[5] = 0, 0, 0, byte(g.intn(4))
+			}
+		case 8: // completely random
+			b = make([]byte, g.intn(40))
+			for j := range b {
+				b[j] = byte(g.intn(256))
+			}
+			if len(b) > 0 && g.chance(0.7) {
+				b[0] = 1
+			}
+		}
+		z := p.Load(g.receiver(g.prec(true), g.mode()))
+		p.Exec(fmt.Sprintf("gobdec %d %x", z, b))
+	}
+}
